@@ -608,6 +608,28 @@ def emit_digest():
             except Exception as exc:  # noqa: BLE001
                 h.update(type(exc).__name__.encode())
             n += 1
+    # list-valued inputs holding the same element more than once (built through the API and parsed): whatever the library
+    # makes of the repetition, it makes the same of it under every seed
+    dup = Event()
+    dup.add("categories", ["Work", "Home", "Work", "Travel", "Budget", "Home", "Family", "work"])
+    dup.add("resources", ["Beamer", "Room", "Beamer"])
+    dup.add("rdate", [date(2024, 1, 3), date(2024, 1, 1), date(2024, 1, 3), date(2024, 1, 2)])
+    dup.add("exdate", [datetime(2024, 1, 3, 9), datetime(2024, 1, 1, 9), datetime(2024, 1, 3, 9)])
+    dup.add("rrule", {"freq": "weekly", "byday": ["MO", "TU", "MO", "-1SU", "TU"], "bymonth": [3, 3, 1, 12, 1], "bysetpos": [1, -1, 1]})
+    dup.add("attendee", "mailto:a@x", parameters={"MEMBER": ["mailto:g1@x", "mailto:g2@x", "mailto:g1@x"], "DELEGATED-TO": ["mailto:b@x", "mailto:b@x"]})
+    dup.add("attendee", "mailto:a@x")
+    dup.add("attendee", "mailto:a@x")
+    dup.add("freebusy", [(datetime(2024, 3, 1, 10, tzinfo=timezone.utc), timedelta(hours=1))] * 3)
+    h.update(dup.to_ical())
+    h.update(dup.to_ical(sorted=False))
+    back = Event.from_ical(dup.to_ical())
+    h.update(back.to_ical())
+    n += 3
+    for text in ("CATEGORIES:a,b,a,c,b,A", "RDATE;VALUE=DATE:20240103,20240101,20240103", "RRULE:FREQ=YEARLY;BYMONTH=5,3,5;BYDAY=FR,MO,FR",
+                 "EXDATE:20240103T090000Z,20240103T090000Z,20240101T090000Z", "ATTENDEE;MEMBER=\"mailto:a@x\",\"mailto:b@x\",\"mailto:a@x\":mailto:c@x"):
+        pe = Event.from_ical("BEGIN:VEVENT\r\n" + text + "\r\n" + text + "\r\nEND:VEVENT\r\n")
+        h.update(pe.to_ical())
+        n += 1
     print(h.hexdigest(), n)
 
 
@@ -617,7 +639,7 @@ def run(ctx):
     ctx.rule = (f"E-hist: (A) all permutations of all subsets (<= {kmax} of 7) of distinct property names on 5 component kinds; "
                 "(A') all 144 insertion orders of a 4-level nested tree (calendar > event > alarm > unknown component) serialised with sorting on and off; (B) all permutations of all subsets (<=4) of 7 parameters; (C) all 120 interleavings of 3 repeated values (also with falsy first/last values: empty text, integer 0) / 3 "
                 "subcomponents with 2 other properties; (D) purity on a 30-value-class menu x {no params, a parameter, parameters a writer might tidy up: TZID=UTC / VALUE / empty / list, the parameter map emptied as the reader does} x nesting x sorted flag, and on 45 trees PARSED from lines that leave VALUE / TZID implicit or state defaults x sorted flag x provider; "
-                f"(E) BEGIN/END balance of every output; (F) {len(seeds)} PYTHONHASHSEED values, one digest over ~250 trees each. "
+                f"(E) BEGIN/END balance of every output; (F) {len(seeds)} PYTHONHASHSEED values, one digest over ~260 trees each (incl. list values that hold one element several times: CATEGORIES, RESOURCES, RDATE, EXDATE, rule parts, MEMBER lists, repeated ATTENDEE / FREEBUSY, API-built and parsed). "
                 "non-trivial = at least two names/parameters or any repeated/purity case.")
     ctx.bounds = {"max_subset": kmax, "pool": 7, "hash_seeds": len(seeds)}
     ctx.assumptions += ["not all 2^32 hash seeds: a fixed range of seeds is enumerated (stated, not claimed)"]
